@@ -36,7 +36,7 @@ def group_reg_alt(k, alt):
                alt_widths=Const([alt]), base_endianness=Endianness, reverse_subregs_order=Const(False), name=Const("GA"))
 
 
-ANY_REG = Union[plain_reg(8), plain_reg(16), plain_reg(32), plain_reg(64), rev_reg(8), rev_reg(16), rev_reg(32), rev_reg(64),
+ANY_REG = Union[plain_reg(8), plain_reg(16), plain_reg(32), plain_reg(64), rev_reg(8), rev_reg(16), rev_reg(24), rev_reg(32), rev_reg(48), rev_reg(64),
                 group_reg(2), group_reg(3), group_reg_alt(4, 64)]
 
 
@@ -91,7 +91,7 @@ def _mk_reg(rnd):
             s._value = rnd.getrandbits(32)
             g._add_group_reg(s)
         return g
-    w = rnd.choice([8, 16, 32, 64])
+    w = rnd.choice([8, 16, 24, 32, 48, 64])
     r = Register("R", 0, w, "r", reverse=(kind == "rev"), base_endianness=rnd.choice(list(Endianness)))
     r._value = rnd.getrandbits(w)
     return r
